@@ -7,7 +7,7 @@ From WV Require Import Lib.PyBytes Gen.GenTables Model.Task Spec.ClientParse
   Proof.TaskHead Proof.TaskStart Proof.TaskRun Proof.TaskChunk Proof.TaskClient Proof.TaskOracle
   Proof.TaskC08 Proof.TaskC09 Proof.TaskFrame Proof.TaskBody Proof.TaskSimple Proof.TaskFrameClient
   Proof.TaskFrameEnd Proof.TaskC03 Proof.TaskFrame2Sem Proof.TaskFrame2Run Proof.TaskFrame2Head
-  Proof.TaskFrame2End Proof.TaskFrame2Err.
+  Proof.TaskFrame2End Proof.TaskFrame2Err Proof.TaskFrame2File Proof.TaskFrame2FileEnd.
 Import ListNotations.
 Local Open Scope N_scope.
 
@@ -197,3 +197,70 @@ Example late_failure_example :
   /\ o_close res = true /\ o_closes res = 1%nat
   /\ parse_one false (wire (o_writes res)) = None.
 Proof. vm_compute. repeat split; reflexivity. Qed.
+
+(* ---- wsgi.file_wrapper handed over to the channel -------------------------------- *)
+
+Theorem c03_frame_file c r status hs chunks hc :
+  cfg_clean c ->
+  r_error r = None -> Forall (not_cl py_lower) hs -> plain_fields py_cap (strs_of hs) ->
+  r_head r = false -> no_body_st status = false ->
+  file_content (plain_steps chunks) <> [] ->
+  let content := file_content (plain_steps chunks) in
+  let res := run_task c r (fapp status hs chunks hc) None in
+  o_raw res = None ->
+  exists fields,
+    parse_one false (wire (o_writes res))
+    = Some (mkResponse (sl_of r status) fields (FLength (lenN content)) content, [])
+    /\ (forall h, In h (strs_of hs) -> In (client_field (norm_field py_cap h)) fields)
+    /\ o_next res = keep_of r /\ o_close res = negb (keep_of r)
+    /\ (keep_of r = false -> In (client_field f_close) fields)
+    /\ (keep_of r = true -> ~ In (client_field f_close) fields)
+    /\ o_handover res = true /\ o_closes res = 0%nat.
+Proof.
+  intro Hc. exact (frame_file_nolen py_cap py_lower py_cap_clean py_cap_connection py_cap_te py_cap_cl c Hc r
+                                    status hs chunks hc).
+Qed.
+
+Theorem c03_frame_file_declared c r status pre clname v post cl chunks hc :
+  cfg_clean c ->
+  r_error r = None ->
+  Forall (not_cl py_lower) post ->
+  beqb (py_lower clname) (lit "content-length") = true -> py_int v = Some cl ->
+  all_digits v = true -> Z.of_N (dec_value v) = cl ->
+  plain_fields py_cap (strs_of pre) -> plain_fields py_cap (strs_of post) ->
+  norm_name py_cap clname = lit "Content-Length" ->
+  r_head r = false -> no_body_st status = false ->
+  let content := file_content (plain_steps chunks) in
+  (0 < cl)%Z -> (cl <= Z.of_nat (length content))%Z ->
+  let hs := pre ++ (PStr clname, PStr v) :: post in
+  let res := run_task c r (fapp status hs chunks hc) None in
+  o_raw res = None ->
+  exists fields,
+    parse_one false (wire (o_writes res))
+    = Some (mkResponse (sl_of r status) fields (FLength (dec_value v)) (firstn (N.to_nat (dec_value v)) content), [])
+    /\ (forall h, In h (strs_of hs) -> In (client_field (norm_field py_cap h)) fields)
+    /\ o_next res = keep_of r /\ o_close res = negb (keep_of r)
+    /\ (keep_of r = false -> In (client_field f_close) fields)
+    /\ (keep_of r = true -> ~ In (client_field f_close) fields)
+    /\ o_handover res = true /\ o_closes res = 0%nat.
+Proof.
+  intro Hc. exact (frame_file_declared py_cap py_lower py_cap_clean py_cap_connection py_cap_te py_cap_cl c Hc r
+                                       status pre clname v post cl chunks hc).
+Qed.
+
+(* a seekable file of 6 bytes read in blocks of 4, no declared length: handed over, kept alive *)
+Example file_handover_example :
+  let res := run_task sample_cfg sample_req (fapp (lit "200 OK") [ct_hdr] [lit "abcd"; lit "ef"] true) None in
+  o_raw res = None /\ o_handover res = true /\ o_next res = true
+  /\ exists resp, parse_stream [false] (wire (o_writes res)) = ([resp], [])
+                  /\ rs_framing resp = FLength 6 /\ rs_body resp = lit "abcdef".
+Proof. vm_compute. repeat split; try reflexivity. eexists. repeat split; reflexivity. Qed.
+
+(* the same file behind a declared length of 4: cut by prepare(size) *)
+Example file_cut_example :
+  let res := run_task sample_cfg sample_req
+               (fapp (lit "200 OK") ([] ++ cl_hdr (lit "4") :: []) [lit "abcd"; lit "ef"] true) None in
+  o_raw res = None /\ o_handover res = true
+  /\ exists resp, parse_stream [false] (wire (o_writes res)) = ([resp], [])
+                  /\ rs_framing resp = FLength 4 /\ rs_body resp = lit "abcd".
+Proof. vm_compute. repeat split; try reflexivity. eexists. repeat split; reflexivity. Qed.
